@@ -21,7 +21,10 @@ def format_expr(expr: Union[str, ast.AST]) -> str:
 
 IDENTIFIER_MATCHER = re.compile(r"[^\W\d]\w*")
 UNQUOTED_BACKTICK_MATCHER = re.compile(
-    r"(`[^`]*`|\\\"|\"(?:\\.|[^\"\\])*\"|\\'|'(?:\\.|[^'\\])*'|`)"
+    r"(`[^`]*`|\\\"|\\'"
+    r"|'\'\'(?:\\.|[^\\])*?'\'\'|\"\"\"(?:\\.|[^\\])*?\"\"\""  # (triple-quoted literals)
+    r"|\"(?:\\.|[^\"\\])*\"|'(?:\\.|[^'\\])*'|`)",
+    re.S,
 )
 
 
